@@ -9,7 +9,7 @@
 //        K real threads, each interpreting a straight-line symbol program (ops I R S L E Q of interner_drv.ml) against the
 //        real interner (S/L through Type::TypeAlias(sym).into_id() / to_type()), started together with random skews,
 //        `reps` times.  "mode":"atomic" (default) copies a resolved string while the lock is held (the model's atomic resolve);
-//        "mode":"as_str" uses Symbol::as_str().to_string() as the compiler does (the reference escapes the lock: finding F24).  Answer {"runs":[[ "obs obs ..", .. per thread ], .. per repetition]}.
+//        "mode":"as_str" uses Symbol::as_str().to_string() as the compiler does (the reference escapes the lock: was finding F24).  Answer {"runs":[[ "obs obs ..", .. per thread ], .. per repetition]}.
 //   {"op":"jobs","jobs":[{"src":..,"path":..,"sched":..,"n":..},..],"seed":s,"reps":r}
 //        every job observed ALONE first (determinism_run's `observe`: Mir, bytecode listing, WASM bytes, skeleton, io, VM and
 //        WASM outputs, diagnostics), then all jobs on K = len(jobs) concurrent threads, `reps` times.
@@ -102,7 +102,7 @@ fn eval_sv(sv: &str, regs: &[String]) -> String {
 }
 
 /// interpret one straight-line symbol program against the real storage
-/// `sym.as_str().to_string()` as the compiler does it (reference escapes the lock: finding F24), or a copy made while
+/// `sym.as_str().to_string()` as the compiler does it (reference escapes the lock: was finding F24), or a copy made while
 /// the lock is held (the atomic `resolve` of the model)
 fn resolve_str(sym: Symbol, atomic: bool) -> String {
     if atomic {
@@ -213,7 +213,7 @@ fn do_symprog(case: &Value) -> Value {
 
 /// Symbol::as_str (a safe public function) hands out a `&str` that points into the interner's single growing buffer and
 /// outlives the lock.  Thread A keeps such a reference while thread B interns fresh strings (what a concurrent compilation
-/// does); when the buffer has been reallocated, A looks at its reference again.  Reported, not asserted (finding F24).
+/// does) and then looks at its reference again (finding F24, fixed by BucketBackend: must still read the same string).
 fn do_asstr(case: &Value) -> Value {
     let tag = case["seed"].as_u64().unwrap_or(0);
     let probe = format!("c19_probe_{tag}_{}", "p".repeat(40));
